@@ -1,10 +1,14 @@
 //! Verification stand-in for `sled` 0.34.7: ONLY the API surface that utils/src/pm_tree/sled_adapter.rs and
-//! rln/src/pm_tree_adapter.rs use, as an in-memory NO-OP (no I/O, no threads, never fails).
+//! rln/src/pm_tree_adapter.rs use, as an in-memory engine without I/O or threads.
 //!
-//! ASSUMED(dep): this is the unit's model of the storage engine: every write succeeds and stores nothing, every
-//! read finds nothing.  That is enough because the stand-in for pmtree (kani/stubs/pmtree) keeps the tree state
-//! itself and uses the database only to open it.  Durability and storage failures are property C16 (not decided).
-//! The one piece of state: a `Config` made with the test-only `Config::kani_existing(depth, next_index)` stands
+//! ASSUMED(dep): this is the units' model of the storage engine.  By default (every `kani_ctl` switch off) every write
+//! succeeds and is only *logged* (`kani_ctl::LOG`), every read finds nothing.  That is enough for unit pm_adapter_kani because the
+//! stand-in for pmtree (kani/stubs/pmtree) keeps the tree state itself and uses the database only to open it.
+//! Unit sled_adapter_kani (property C16: storage failures are reported) arms the FAULT PLAN in `kani_ctl`: an open, read, write or
+//! flush can be made to fail, and the engine records what it was asked to store, so that the contract of the real `SledDB`
+//! wrapper ("Ok only if the engine accepted exactly this write / flush; an engine failure is an Err") is checked against it.
+//! Durability of sled itself (what survives a crash) is NOT modelled.
+//! The one piece of tree state: a `Config` made with the test-only `Config::kani_existing(depth, next_index)` stands
 //! for "a database already exists at this location and holds a tree of that depth / high-water mark":
 //! `Db::was_recovered()` is then true and `get` answers pmtree's two bookkeeping keys (depth, next_index).
 #![allow(unused)]
@@ -38,7 +42,17 @@ impl Config {
     pub fn flush_every_ms(self, _ms: Option<u64>) -> Config { self }
     pub fn mode(self, _m: Mode) -> Config { self }
     pub fn use_compression(self, _c: bool) -> Config { self }
-    pub fn open(&self) -> Result<Db, Error> { Ok(Db { existing: self.existing }) }
+    pub fn open(&self) -> Result<Db, Error> {
+        // fault plan: the k-th open of this run fails as OPEN_PLAN[k] says (0 = succeeds, 1 = "WouldBlock" I/O error, 2 = another error)
+        let k = unsafe { kani_ctl::OPENS };
+        unsafe { kani_ctl::OPENS = k + 1; }
+        let plan = if k < kani_ctl::PLAN_LEN { unsafe { kani_ctl::OPEN_PLAN[k] } } else { 0 };
+        match plan {
+            0 => Ok(Db { existing: self.existing }),
+            1 => Err(Error::WouldBlock),
+            _ => Err(Error::Other),
+        }
+    }
     /// test-only: a database that already exists and holds a tree of this depth and high-water mark
     pub fn kani_existing(depth: usize, next_index: usize) -> Config {
         Config { path: PathBuf::new(), temporary: false, existing: Some((depth, next_index)) }
@@ -46,17 +60,63 @@ impl Config {
 }
 
 #[derive(Debug)]
-pub struct Error;
+pub enum Error { WouldBlock, Other }
 impl fmt::Display for Error {
-    fn fmt(&self, _f: &mut fmt::Formatter<'_>) -> fmt::Result { Ok(()) }
+    // sled renders a lock conflict as "IO error: ... WouldBlock ..."; the adapter looks for the word.  The stand-in renders exactly
+    // the word (and nothing for other errors): `str::contains` then is one memcmp instead of the SIMD / two-way searcher CBMC chokes on
+    fn fmt(&self, f: &mut fmt::Formatter<'_>) -> fmt::Result {
+        match self { Error::WouldBlock => f.write_str("WouldBlock"), Error::Other => Ok(()) }
+    }
+}
+
+/// fault plan and write log of the stand-in (only verification harnesses touch these; everything off by default)
+pub mod kani_ctl {
+    pub const PLAN_LEN: usize = 12;
+    pub static mut OPEN_PLAN: [u8; PLAN_LEN] = [0; PLAN_LEN];
+    pub static mut OPENS: usize = 0;
+    pub static mut FAIL_READ: bool = false;
+    pub static mut FAIL_WRITE: bool = false;
+    pub static mut FAIL_FLUSH: bool = false;
+    /// number of writes (single or batch entries) the engine accepted, and the first two of them: (key, value length, first 4 value bytes)
+    pub static mut WRITES: usize = 0;
+    pub static mut LOG: [([u8; 8], usize, [u8; 4]); 2] = [([0; 8], 0, [0; 4]); 2];
+    pub static mut FLUSHES: usize = 0;
+    /// what a read of key READ_KEY finds (None: nothing stored)
+    pub static mut READ_KEY: [u8; 8] = [0; 8];
+    pub static mut READ_VAL: Option<[u8; 2]> = None;
+    pub(crate) fn digest(key: &[u8], val: &super::IVec) -> ([u8; 8], usize, [u8; 4]) {
+        let mut k = [0u8; 8];
+        let mut i = 0;
+        while i < 8 && i < key.len() { k[i] = key[i]; i += 1; }
+        (k, val.len, [val.bytes[0], val.bytes[1], val.bytes[2], val.bytes[3]])
+    }
+    pub(crate) fn log(e: ([u8; 8], usize, [u8; 4])) {
+        unsafe {
+            if WRITES < 2 { LOG[WRITES] = e; }
+            WRITES += 1;
+        }
+    }
 }
 impl std::error::Error for Error {}
 
-#[derive(Debug, Clone, PartialEq, Eq)]
-pub struct IVec(Vec<u8>);
+// a stored value WITHOUT heap storage (Kani 0.68 mis-models the drop of `Result<Option<heap type>, two-variant enum>`, whose
+// discriminants all live in the Vec capacity niche: spurious "rust_dealloc ... layout" failures): the first 8 bytes + the length
+#[derive(Debug, Clone, Copy, PartialEq, Eq)]
+pub struct IVec { len: usize, bytes: [u8; 8] }
 impl IVec {
-    pub fn to_vec(&self) -> Vec<u8> { self.0.clone() }
+    fn of(v: &[u8]) -> IVec {
+        let mut bytes = [0u8; 8];
+        let mut i = 0;
+        while i < 8 && i < v.len() { bytes[i] = v[i]; i += 1; }
+        IVec { len: v.len(), bytes }
+    }
+    pub fn to_vec(&self) -> Vec<u8> { self.bytes[..if self.len < 8 { self.len } else { 8 }].to_vec() }
 }
+// the Vec is forgotten, not dropped: Kani 0.68 reports a spurious `rust_dealloc ... layout` failure when a Vec<u8> that crossed the
+// `Database::put` trait boundary is dropped here (not reproducible in isolation; the engine model does not care about the leak)
+impl From<Vec<u8>> for IVec { fn from(v: Vec<u8>) -> IVec { let r = IVec::of(&v); core::mem::forget(v); r } }
+impl From<&[u8]> for IVec { fn from(v: &[u8]) -> IVec { IVec::of(v) } }
+impl<const N: usize> From<&[u8; N]> for IVec { fn from(v: &[u8; N]) -> IVec { IVec::of(&v[..]) } }
 
 #[derive(Debug, Clone)]
 pub struct Db {
@@ -65,6 +125,15 @@ pub struct Db {
 impl Db {
     pub fn was_recovered(&self) -> bool { self.existing.is_some() }
     pub fn get<K: AsRef<[u8]>>(&self, key: K) -> Result<Option<IVec>, Error> {
+        if unsafe { kani_ctl::FAIL_READ } { return Err(Error::Other); }
+        if let Some(v) = unsafe { kani_ctl::READ_VAL } {
+            let k = key.as_ref();
+            let rk = unsafe { kani_ctl::READ_KEY };
+            let mut same = k.len() == 8;
+            let mut i = 0;
+            while same && i < 8 { if k[i] != rk[i] { same = false; } i += 1; }
+            if same { return Ok(Some(IVec::of(&v))); }
+        }
         if let Some((depth, next_index)) = self.existing {
             let k = key.as_ref();
             if k.len() == 8 {
@@ -76,19 +145,44 @@ impl Db {
                     if k[i] != NEXT_INDEX_KEY[i] { is_next = false; }
                     i += 1;
                 }
-                if is_depth { return Ok(Some(IVec(depth.to_be_bytes().to_vec()))); }
-                if is_next { return Ok(Some(IVec(next_index.to_be_bytes().to_vec()))); }
+                if is_depth { return Ok(Some(IVec::of(&depth.to_be_bytes()))); }
+                if is_next { return Ok(Some(IVec::of(&next_index.to_be_bytes()))); }
             }
         }
         Ok(None)
     }
-    pub fn insert<K, V>(&self, _key: K, _value: V) -> Result<Option<IVec>, Error> { Ok(None) }
-    pub fn apply_batch(&self, _batch: Batch) -> Result<(), Error> { Ok(()) }
-    pub fn flush(&self) -> Result<usize, Error> { Ok(0) }
+    pub fn insert<K: AsRef<[u8]>, V: Into<IVec>>(&self, key: K, value: V) -> Result<Option<IVec>, Error> {
+        let v: IVec = value.into();
+        if unsafe { kani_ctl::FAIL_WRITE } { return Err(Error::Other); }
+        kani_ctl::log(kani_ctl::digest(key.as_ref(), &v));
+        Ok(None)
+    }
+    /// atomic: either every entry of the batch is accepted or none
+    pub fn apply_batch(&self, batch: Batch) -> Result<(), Error> {
+        if unsafe { kani_ctl::FAIL_WRITE } { return Err(Error::Other); }
+        let mut i = 0;
+        while i < batch.n && i < 2 {
+            kani_ctl::log(batch.entries[i]);
+            i += 1;
+        }
+        while i < batch.n { kani_ctl::log(([0; 8], 0, [0; 4])); i += 1; }   // entries beyond the two kept slots: counted only
+        Ok(())
+    }
+    pub fn flush(&self) -> Result<usize, Error> {
+        if unsafe { kani_ctl::FAIL_FLUSH } { return Err(Error::Other); }
+        unsafe { kani_ctl::FLUSHES += 1; }
+        Ok(0)
+    }
 }
 
+/// a write batch: fixed slots (at most 2 entries are kept, the count is exact): key, value length, first 4 value bytes
 #[derive(Debug, Default, Clone)]
-pub struct Batch;
+pub struct Batch { n: usize, entries: [([u8; 8], usize, [u8; 4]); 2] }
 impl Batch {
-    pub fn insert<K, V>(&mut self, _key: K, _value: V) {}
+    pub fn insert<K: Into<IVec>, V: Into<IVec>>(&mut self, key: K, value: V) {
+        let k: IVec = key.into();
+        let v: IVec = value.into();
+        if self.n < 2 { self.entries[self.n] = kani_ctl::digest(&k.bytes, &v); }
+        self.n += 1;
+    }
 }
